@@ -12,6 +12,7 @@ import (
 	"regexp"
 	"sort"
 	"strings"
+	"sync"
 	"time"
 )
 
@@ -257,10 +258,32 @@ func (r *report) replayAll(tmp string) {
 			}
 		}
 		if len(cases) > 0 {
-			outs, raw := runReplayBinary(bin, tmp, cases, 8<<20, 150*time.Second)
+			// one process per sampled path (eight at a time): under the faketime runtime the clock of a process only
+			// moves forward, so paths that sleep for virtual minutes would shift the clock of the paths replayed after
+			// them in the same process (bundles created at the frozen start instant would then be expired)
 			got := map[string]*Outcome{}
-			for i := range outs {
-				got[outs[i].ID] = &outs[i]
+			raw := ""
+			{
+				var mu sync.Mutex
+				var wg sync.WaitGroup
+				sem := make(chan struct{}, 8)
+				for _, c := range cases {
+					wg.Add(1)
+					go func(c Case) {
+						defer wg.Done()
+						sem <- struct{}{}
+						defer func() { <-sem }()
+						o1, r1 := runReplayBinary(bin, tmp, []Case{c}, 8<<20, 150*time.Second)
+						mu.Lock()
+						defer mu.Unlock()
+						if len(o1) > 0 {
+							got[c.ID] = &o1[0]
+						} else {
+							raw = r1
+						}
+					}(c)
+				}
+				wg.Wait()
 			}
 			// a native run that produced no outcome (e.g. a third-party background goroutine wedged under the
 			// frozen clock) is repeated on its own before it counts as a disagreement
@@ -285,6 +308,11 @@ func (r *report) replayAll(tmp string) {
 				case o.AssumeFailed:
 					r.mismatch = append(r.mismatch, fmt.Sprintf("%s: native run rejects the model of a feasible path (assume failed)", c.ID))
 				case o.FailedAssert != "" || o.Panic != "" || o.Timeout:
+					// keep the inputs of the disagreeing path for `gosym replay`
+					mdir := filepath.Join(verifDir, "replays", r.prop)
+					os.MkdirAll(mdir, 0o755)
+					mb, _ := json.MarshalIndent(ReplayFile{Property: r.prop, Pkg: pkg, Case: c, Expect: &Violation{Kind: "assert", Label: o.FailedAssert}}, "", " ")
+					os.WriteFile(filepath.Join(mdir, fmt.Sprintf("mismatch-%s-%d.json", rf.res.Name, rf.i)), mb, 0o644)
 					r.mismatch = append(r.mismatch, fmt.Sprintf("%s: engine passes this path, native run fails (assert=%q panic=%q timeout=%v)", c.ID, o.FailedAssert, firstLine(o.Panic), o.Timeout))
 				case !sameStrings(s.Reach, o.Reach):
 					r.mismatch = append(r.mismatch, fmt.Sprintf("%s: reach labels differ: engine %v native %v", c.ID, s.Reach, o.Reach))
@@ -407,6 +435,10 @@ func (r *report) finish() int {
 		}
 		if res.Inconclusive > 0 {
 			r.machinery = append(r.machinery, fmt.Sprintf("%s: %d paths contain a branch the solvers could not decide", res.Name, res.Inconclusive))
+		}
+		if res.PathLimitHit && res.Cfg.MaxPaths == 0 {
+			// a run cut short by the clock explored an unknown part of its bound: never a pass
+			r.machinery = append(r.machinery, fmt.Sprintf("%s: exploration did not finish within the time limit (%d paths done)", res.Name, res.Paths))
 		}
 	}
 	for _, m := range r.mismatch {
